@@ -219,10 +219,15 @@ def check_theorems(pid):
 # ----------------------------------------------------------------------------- running suites
 
 def _unlimit_stack():
-    # the extracted model is not tail recursive: long inputs need a deep native stack
+    # the extracted model is not tail recursive: long inputs need a deep native stack;
+    # a runaway allocation of the implementation must kill that one process, not the machine
     import resource
     try:
         resource.setrlimit(resource.RLIMIT_STACK, (resource.RLIM_INFINITY, resource.RLIM_INFINITY))
+    except (ValueError, OSError):
+        pass
+    try:
+        resource.setrlimit(resource.RLIMIT_AS, (24 << 30, 24 << 30))
     except (ValueError, OSError):
         pass
 
